@@ -1270,6 +1270,8 @@ func c06Run(c *Case) (string, []Fail) {
 		return c06RunKey(c)
 	case 7:
 		return c06RunPooled(c)
+	case 8:
+		return c06RunConc(c)
 	}
 	return "badcase", nil
 }
